@@ -166,6 +166,8 @@ fn get_best_move_score(
     killer_moves: &mut [Option<Move>],
     history: &mut [u16; 64 * 12],
 ) -> Option<Score> {
+    #[cfg(daniel729_chess_verif)]
+    crate::verif_hooks::node_poll(table, continue_running, real_depth);
     if !continue_running.load(Relaxed) {
         // Halt the search early
         return None;
@@ -464,6 +466,8 @@ pub fn get_best_move_until_stop(
         .unwrap_or(1);
 
     for depth in starting_depth.. {
+        #[cfg(daniel729_chess_verif)]
+        crate::verif_hooks::iteration(depth);
         let Some((best_move, best_score, is_only_move)) =
             get_best_move_entry(game.clone(), continue_running, depth, table, &mut history)
         else {
